@@ -60,12 +60,15 @@ impl AppendTextComment {
                 .map(|content| {
                     if content.is_empty() {
                         "".to_owned()
-                    } else if content.contains('\n') {
+                    } else if content.contains(['\n', '\r']) || starts_with_long_bracket(&content) {
                         let mut equal_count = 0;
 
                         let close_comment = loop {
                             let close_comment = format!("]{}]", "=".repeat(equal_count));
-                            if !content.contains(&close_comment) {
+                            // Lua 5.1 rejects `[[` nested in a level 0 long bracket
+                            let open_comment = format!("[{}[", "=".repeat(equal_count));
+                            if !content.contains(&close_comment) && !content.contains(&open_comment)
+                            {
                                 break close_comment;
                             }
                             equal_count += 1;
@@ -84,6 +87,14 @@ impl AppendTextComment {
             })
             .clone()
     }
+}
+
+/// A single line comment made of this text would be read as the start of a multiline comment
+fn starts_with_long_bracket(content: &str) -> bool {
+    content
+        .strip_prefix('[')
+        .map(|rest| rest.trim_start_matches('=').starts_with('['))
+        .unwrap_or(false)
 }
 
 impl Rule for AppendTextComment {
